@@ -102,6 +102,7 @@ def ev(e, env):
         if op.startswith("icmp."):
             p = op[5:]
             if isinstance(a, tuple) or isinstance(b, tuple):
+                a, b = _norm_ptr(a), _norm_ptr(b)
                 if p == "eq":
                     return int(a == b)
                 if p == "ne":
@@ -149,6 +150,22 @@ def ev(e, env):
 
 class Unknown(Exception):
     pass
+
+
+def _norm_ptr(a):
+    """pointer values that denote the same address compare equal: trailing zero element / first-member steps and the
+    array-to-pointer decay step are dropped"""
+    if not (isinstance(a, tuple) and a and a[0] == "ptr"):
+        return a
+    path = list(a[2])
+    norm = []
+    for k, q in enumerate(path):
+        if q == ("i", 0) and k + 1 < len(path) and isinstance(path[k + 1], tuple) and path[k + 1][0] == "i":
+            continue
+        norm.append(q)
+    while norm and (norm[-1] == 0 or norm[-1] == ("i", 0) or (isinstance(norm[-1], tuple) and norm[-1][0] == "f" and norm[-1][2] == 0)):
+        norm.pop()
+    return ("ptr", a[1], tuple(norm))
 
 
 def fields_of(path):
